@@ -17,27 +17,44 @@ What "ready again" means, precisely: after a single-block read, a write of any n
 or a register read the card is `Settled` with `busyLeft = 0`.  For the writes the driver has
 polled the busy signal away with `wait_not_busy`, budget `DEFAULT_WRITE_RETRIES`: for a single
 block after the data response, followed by the status read CMD13; for a multiple-block write
-after the stop token (the wait added to the driver after the defect described below).  After a
+after the stop token and one byte that is clocked and discarded (see below).  After a
 *multiple-block read* the card is `Settled` but still has `busyLeft = busy` bytes of busy signal
-to send (CMD12 is answered R1b): the driver does not wait for them; the next command's
-`wait_not_busy` does, with the smaller budget `DEFAULT_COMMAND_RETRIES`.  That is why every
-theorem accepts `busyLeft ≤ DEFAULT_COMMAND_RETRIES` on entry rather than `busyLeft = 0`.
+to send (CMD12 is answered R1b: R1, then busy directly): the driver does not wait for them; the
+next command's `wait_not_busy` does, with the smaller budget `DEFAULT_COMMAND_RETRIES`.  That is
+why every theorem accepts `busyLeft ≤ DEFAULT_COMMAND_RETRIES` on entry rather than `busyLeft = 0`.
+
+The gap N_BR (`Card.stopGap`): the specification allows a card to take up to one byte after the
+stop token of a multiple-block write before it pulls the line low.  The write theorems hold for
+`stopGap ≤ 1`: after `write_byte(STOP_TRAN_TOKEN)` the driver does one `read_byte()` whose value
+it discards — it swallows the gap byte (or, with `stopGap = 0`, the first busy byte) — and only
+then `wait_not_busy`.  (CMD12's R1b has no such gap, and the read side of the driver is unchanged.)
 
 History: before the repair the multiple-block write returned right after the stop token and left
 `busyLeft = busy`; with `DEFAULT_COMMAND_RETRIES < busy ≤ DEFAULT_WRITE_RETRIES` the next command
 then failed with `TimeoutWaitNotBusy` (reproduced on the crate: a read after a 2-block write on a
 card busy for 12000 polls).  `write_multi_correct` now concludes `busyLeft = 0`, and
 `write_multi_then_read` states the scenario that used to fail.
+Second repair: an error inside the block loop of a multiple-block write used to return at once,
+WITHOUT the stop token, leaving the card inside the write (the next command frame arrived "while
+the card waits for a data token").  Now the loop's error is remembered, the stop sequence (busy
+wait, stop token, busy wait) is attempted either way, and the loop's error is returned:
+`write_multi_refused_block`, `write_refused_then_read`.
 
 Outside the hypotheses (evaluated on the model with `#eval`, not theorems):
 * `crcOn` but not `useCrc` (excluded by `CrcAgree`): the card answers the 0xFFFF "CRC" with the
   data response "CRC error", `write` returns `WriteError`, nothing is stored.
 * `busy = DEFAULT_WRITE_RETRIES + 1`: the single-block `write` returns `TimeoutWaitNotBusy` — after
   the card has stored the block; the multiple-block `write` returns it from the wait in front of
-  the second block, with the first block stored.
+  the second block, with the first block stored (the stop sequence is attempted, but its own busy
+  wait times out as well, so no stop token is sent).
 * `DEFAULT_COMMAND_RETRIES < busy`: a multiple-block *read* succeeds and leaves `busyLeft = busy`;
   the next command then fails with `TimeoutWaitNotBusy` (`busy = 10001`: fails; `busy = 10000`:
   succeeds).  (No `wait_not_busy` follows CMD12 in the driver.)
+* `stopGap = 2` (not allowed by the specification; excluded by `stopGap ≤ 1`): after the stop token
+  the discarded byte swallows one gap byte, `wait_not_busy` reads the second 0xFF and returns at
+  once; the multiple-block `write` returns `Ok` with the card about to be busy for all its `busy`
+  bytes: with `busy = 12000` the next command fails with `TimeoutWaitNotBusy`, with `busy` within
+  the command budget it succeeds.  No violation either way.
 * `ncr = DEFAULT_COMMAND_RETRIES + 1`: `TimeoutCommand`; `nac = DEFAULT_READ_RETRIES + 1`: `TimeoutReadBuffer`.
 * card type and kind that do not fit (`Addressable`): the driver never looks at the R1 answer to
   CMD17/18/24/25, so with `card_type = SDHC` on a standard-capacity card `write(.., 512)` silently
@@ -49,6 +66,7 @@ Outside the hypotheses (evaluated on the model with `#eval`, not theorems):
 import Sdmmc.Props.C12
 import Sdmmc.Lemmas.SdCardSim2Seq
 import Sdmmc.Lemmas.SdCardSim2Init
+import Sdmmc.Lemmas.SdCardSim2Refuse
 
 namespace Sdmmc.Props.C12EndToEnd
 open Sdmmc.Model Sdmmc.Model.Sd Sdmmc.Gen
@@ -77,7 +95,8 @@ def CrcAgree (s : St Card) : Prop := s.bus.crcOn = true → s.useCrc = true
 /-- Nothing about the card's identity, geometry, register, timing or CRC mode changed. -/
 def SameCard (c c' : Card) : Prop :=
   c'.kind = c.kind ∧ c'.capacity = c.capacity ∧ c'.csd = c.csd ∧ c'.ncr = c.ncr ∧ c'.nac = c.nac ∧
-  c'.busy = c.busy ∧ c'.crcOn = c.crcOn
+  c'.busy = c.busy ∧ c'.crcOn = c.crcOn ∧ c'.stopGap = c.stopGap
+
 
 /-- `n` single-block reads of consecutive blocks, in order, results concatenated. -/
 def readSingles {σ : Type} (B : BusOps σ) : Nat → Nat → S σ (List Bytes)
@@ -114,8 +133,8 @@ private theorem writeSingles_eq {σ : Type} (B : BusOps σ) (blocks : List Bytes
 private theorem outcome {s s' : St Card} (h : Lemmas.SdCardSim2.Outcome s s') :
     SameCard s.bus s'.bus ∧ s'.bus.violations = s.bus.violations ∧ Settled s'.bus ∧
       s'.cardType = s.cardType ∧ s'.useCrc = s.useCrc := by
-  obtain ⟨⟨u1, u2, u3, u4, u5, u6, u7, u8⟩, hs, hc, hu⟩ := h
-  exact ⟨⟨u1, u2, u3, u4, u5, u6, u7⟩, u8, (settled_iff _).2 hs, hc, hu⟩
+  obtain ⟨⟨u1, u2, u3, u4, u5, u6, u7, u8, u9⟩, hs, hc, hu⟩ := h
+  exact ⟨⟨u1, u2, u3, u4, u5, u6, u7, u9⟩, u8, (settled_iff _).2 hs, hc, hu⟩
 
 /-! ## Single-block write -/
 
@@ -245,19 +264,21 @@ theorem read_multi_eq_singles (s : St Card) (hS : Settled s.bus)
     (by omega) (by have := hadr 0 (by omega); rw [Nat.add_zero] at this; exact this) (by omega) hcap hlen
   obtain ⟨s₂, h2, m2, _, o2⟩ := Lemmas.SdCardSim2.readSingles_card n idx s ((settled_iff _).1 hS) hbl hncr hnac
     hadr hcap (fun j h1 h2 => hlen j h1 (by omega) (by omega))
-  refine ⟨_, s₁, s₂, h1, ?_, m1.trans m2.symm, o1.unchanged.2.2.2.2.2.2.2.trans o2.unchanged.2.2.2.2.2.2.2.symm⟩
+  refine ⟨_, s₁, s₂, h1, ?_, m1.trans m2.symm,
+    o1.unchanged.2.2.2.2.2.2.2.1.trans o2.unchanged.2.2.2.2.2.2.2.1.symm⟩
   rw [readSingles_eq]; exact h2
 
 /-! ## Multiple-block write -/
 
 /-- A multiple-block write (any number of blocks other than one: ACMD23, CMD25, each block behind
 a 0xFC token, the stop token) stores block `j` of the slice at block number `idx + j` and changes
-no other block; no violation.  After the stop token the driver waits (budget
-`DEFAULT_WRITE_RETRIES`) for the card to finish programming: the card is left settled and no
-longer busy. -/
+no other block; no violation.  After the stop token the driver clocks and discards one byte and
+then waits (budget `DEFAULT_WRITE_RETRIES`) for the card to finish programming: the card is left
+settled and no longer busy — for a card that takes no or one byte to signal busy after the stop
+token (`stopGap ≤ 1`). -/
 theorem write_multi_correct (s : St Card) (hS : Settled s.bus)
     (hbl : s.bus.busyLeft ≤ DEFAULT_COMMAND_RETRIES) (hncr : s.bus.ncr ≤ DEFAULT_COMMAND_RETRIES)
-    (hbusy : s.bus.busy ≤ DEFAULT_WRITE_RETRIES) (hcrc : CrcAgree s)
+    (hbusy : s.bus.busy ≤ DEFAULT_WRITE_RETRIES) (hgap : s.bus.stopGap ≤ 1) (hcrc : CrcAgree s)
     (blocks : List Bytes) (idx : Nat) (hn : blocks.length ≠ 1)
     (hadr : Addressable s.cardType s.bus.kind idx) (hidx : idx < s.bus.capacity)
     (hcap : idx + blocks.length ≤ s.bus.capacity) (hlen : ∀ b ∈ blocks, b.length = 512) :
@@ -266,7 +287,7 @@ theorem write_multi_correct (s : St Card) (hS : Settled s.bus)
       (∀ i, i < idx ∨ idx + blocks.length ≤ i → getBlock s'.bus i = getBlock s.bus i) ∧
       SameCard s.bus s'.bus ∧ s'.bus.violations = s.bus.violations ∧ Settled s'.bus ∧
       s'.bus.busyLeft = 0 ∧ s'.cardType = s.cardType ∧ s'.useCrc = s.useCrc := by
-  obtain ⟨s', h, hm, hb, ho⟩ := Lemmas.SdCardSim2.write_multi_sum s ((settled_iff _).1 hS) hbl hncr hbusy hcrc
+  obtain ⟨s', h, hm, hb, ho⟩ := Lemmas.SdCardSim2.write_multi_sum s ((settled_iff _).1 hS) hbl hncr hbusy hgap hcrc
     blocks idx hn hadr hidx hcap hlen
   obtain ⟨o1, o2, o3, o4, o5⟩ := outcome ho
   refine ⟨s', h, fun j hj => ?_, fun i hi => ?_, o1, o2, o3, hb, o4, o5⟩
@@ -278,7 +299,8 @@ theorem write_multi_correct (s : St Card) (hS : Settled s.bus)
 /-- … for a high-capacity card and at least two blocks. -/
 theorem write_multi_correct_sdhc (s : St Card) (hct : s.cardType = some .SDHC) (hk : s.bus.kind = .SDHC)
     (hS : Settled s.bus) (hbl : s.bus.busyLeft ≤ DEFAULT_COMMAND_RETRIES)
-    (hncr : s.bus.ncr ≤ DEFAULT_COMMAND_RETRIES) (hbusy : s.bus.busy ≤ DEFAULT_WRITE_RETRIES) (hcrc : CrcAgree s)
+    (hncr : s.bus.ncr ≤ DEFAULT_COMMAND_RETRIES) (hbusy : s.bus.busy ≤ DEFAULT_WRITE_RETRIES)
+    (hgap : s.bus.stopGap ≤ 1) (hcrc : CrcAgree s)
     (blocks : List Bytes) (idx : Nat) (hn : 2 ≤ blocks.length) (hcap : idx + blocks.length ≤ s.bus.capacity)
     (h32 : idx < 4294967296) (hlen : ∀ b ∈ blocks, b.length = 512) :
     ∃ s', Sd.write cardBus blocks idx s = (.ok (), s') ∧
@@ -286,23 +308,23 @@ theorem write_multi_correct_sdhc (s : St Card) (hct : s.cardType = some .SDHC) (
       (∀ i, i < idx ∨ idx + blocks.length ≤ i → getBlock s'.bus i = getBlock s.bus i) ∧
       SameCard s.bus s'.bus ∧ s'.bus.violations = s.bus.violations ∧ Settled s'.bus ∧
       s'.bus.busyLeft = 0 ∧ s'.cardType = s.cardType ∧ s'.useCrc = s.useCrc :=
-  write_multi_correct s hS hbl hncr hbusy hcrc blocks idx (by omega) (Or.inl ⟨hct, hk, h32⟩) (by omega) hcap hlen
+  write_multi_correct s hS hbl hncr hbusy hgap hcrc blocks idx (by omega) (Or.inl ⟨hct, hk, h32⟩) (by omega) hcap hlen
 
 /-- A multiple-block write is equivalent to the same single-block writes in order: the same
 final card memory (and no violation either way). -/
 theorem write_multi_eq_singles (s : St Card) (hS : Settled s.bus)
     (hbl : s.bus.busyLeft ≤ DEFAULT_COMMAND_RETRIES) (hncr : s.bus.ncr ≤ DEFAULT_COMMAND_RETRIES)
-    (hbusy : s.bus.busy ≤ DEFAULT_WRITE_RETRIES) (hcrc : CrcAgree s)
+    (hbusy : s.bus.busy ≤ DEFAULT_WRITE_RETRIES) (hgap : s.bus.stopGap ≤ 1) (hcrc : CrcAgree s)
     (blocks : List Bytes) (idx : Nat) (hn : 2 ≤ blocks.length)
     (hadr : ∀ k, k < blocks.length → Addressable s.cardType s.bus.kind (idx + k))
     (hcap : idx + blocks.length ≤ s.bus.capacity) (hlen : ∀ b ∈ blocks, b.length = 512) :
     ∃ s₁ s₂, Sd.write cardBus blocks idx s = (.ok (), s₁) ∧ writeSingles cardBus blocks idx s = (.ok (), s₂) ∧
       s₁.bus.mem = s₂.bus.mem ∧ s₁.bus.violations = s₂.bus.violations := by
-  obtain ⟨s₁, h1, m1, _, o1⟩ := Lemmas.SdCardSim2.write_multi_sum s ((settled_iff _).1 hS) hbl hncr hbusy hcrc
+  obtain ⟨s₁, h1, m1, _, o1⟩ := Lemmas.SdCardSim2.write_multi_sum s ((settled_iff _).1 hS) hbl hncr hbusy hgap hcrc
     blocks idx (by omega) (by have := hadr 0 (by omega); rw [Nat.add_zero] at this; exact this) (by omega) hcap hlen
   obtain ⟨s₂, h2, m2, _, o2⟩ := Lemmas.SdCardSim2.writeSingles_card blocks idx s ((settled_iff _).1 hS) hbl hncr
     hbusy hcrc hadr hcap hlen
-  refine ⟨s₁, s₂, h1, ?_, m1.trans m2.symm, o1.unchanged.2.2.2.2.2.2.2.trans o2.unchanged.2.2.2.2.2.2.2.symm⟩
+  refine ⟨s₁, s₂, h1, ?_, m1.trans m2.symm, o1.unchanged.2.2.2.2.2.2.2.1.trans o2.unchanged.2.2.2.2.2.2.2.1.symm⟩
   rw [writeSingles_eq]; exact h2
 
 /-! ## Write, then read -/
@@ -328,7 +350,7 @@ multiple-block write on a card whose programming time is only within the *write*
 single-block read of any of the written blocks succeeds and returns that block. -/
 theorem write_multi_then_read (s : St Card) (hS : Settled s.bus)
     (hbl : s.bus.busyLeft ≤ DEFAULT_COMMAND_RETRIES) (hncr : s.bus.ncr ≤ DEFAULT_COMMAND_RETRIES)
-    (hnac : s.bus.nac ≤ DEFAULT_READ_RETRIES) (hbusy : s.bus.busy ≤ DEFAULT_WRITE_RETRIES) (hcrc : CrcAgree s)
+    (hnac : s.bus.nac ≤ DEFAULT_READ_RETRIES) (hbusy : s.bus.busy ≤ DEFAULT_WRITE_RETRIES) (hgap : s.bus.stopGap ≤ 1) (hcrc : CrcAgree s)
     (blocks : List Bytes) (idx : Nat) (hn : blocks.length ≠ 1)
     (hcap : idx + blocks.length ≤ s.bus.capacity) (hlen : ∀ b ∈ blocks, b.length = 512)
     (j : Nat) (hj : j < blocks.length) (hadr : Addressable s.cardType s.bus.kind (idx + j)) :
@@ -339,11 +361,66 @@ theorem write_multi_then_read (s : St Card) (hS : Settled s.bus)
     · exact Or.inl ⟨h1, h2, by omega⟩
     · exact Or.inr ⟨h1, h2, by omega⟩
   obtain ⟨s', hw, hget, _, ⟨k1, k2, _, k4, k5, _, _⟩, hv, hS', hb', hct', _⟩ :=
-    write_multi_correct s hS hbl hncr hbusy hcrc blocks idx hn hadr0 (by omega) hcap hlen
+    write_multi_correct s hS hbl hncr hbusy hgap hcrc blocks idx hn hadr0 (by omega) hcap hlen
   have hg := hget j hj
   obtain ⟨s'', hr, _, _, hv', _⟩ := read_single_correct s' hS' (by rw [hb']; exact Nat.zero_le _)
     (by rw [k4]; exact hncr) (by rw [k5]; exact hnac) (idx + j) (by rw [hct', k1]; exact hadr)
     (by rw [k2]; omega) (by rw [hg]; exact hlen _ (List.getElem_mem hj))
+  rw [hg] at hr
+  exact ⟨s', s'', hw, hr, hv'.trans hv⟩
+
+/-! ## A refused block -/
+
+/-- A block of a multiple-block write is refused by the card (here: the write starts inside the
+card and runs over its end, so the first block beyond the end gets the data response "write
+error"): `write` returns `WriteError`; the blocks before the refused one are stored, every other
+block holds what it held; the driver has still sent the stop sequence, so the card is settled —
+back in the ready phase, not waiting for data blocks — and not busy; and the card has recorded no
+violation. -/
+theorem write_multi_refused_block (s : St Card) (hS : Settled s.bus)
+    (hbl : s.bus.busyLeft ≤ DEFAULT_COMMAND_RETRIES) (hncr : s.bus.ncr ≤ DEFAULT_COMMAND_RETRIES)
+    (hbusy : s.bus.busy ≤ DEFAULT_WRITE_RETRIES) (hgap : s.bus.stopGap ≤ 1) (hcrc : CrcAgree s)
+    (blocks : List Bytes) (idx : Nat) (hn : blocks.length ≠ 1)
+    (hadr : Addressable s.cardType s.bus.kind idx) (hidx : idx < s.bus.capacity)
+    (hover : s.bus.capacity < idx + blocks.length) (hlen : ∀ b ∈ blocks, b.length = 512) :
+    ∃ s', Sd.write cardBus blocks idx s = (.err .WriteError, s') ∧
+      (∀ j (hj : j < blocks.length), idx + j < s.bus.capacity → getBlock s'.bus (idx + j) = blocks[j]) ∧
+      (∀ i, i < idx ∨ s.bus.capacity ≤ i → getBlock s'.bus i = getBlock s.bus i) ∧
+      SameCard s.bus s'.bus ∧ s'.bus.violations = s.bus.violations ∧ Settled s'.bus ∧
+      s'.bus.busyLeft = 0 ∧ s'.cardType = s.cardType ∧ s'.useCrc = s.useCrc := by
+  obtain ⟨s', h, hm, hb, ho⟩ := Lemmas.SdCardSim2.write_multi_oor_sum s ((settled_iff _).1 hS) hbl hncr hbusy hgap hcrc
+    blocks idx hn hadr hidx hover hlen
+  obtain ⟨o1, o2, o3, o4, o5⟩ := outcome ho
+  have hl : (blocks.take (s.bus.capacity - idx)).length = s.bus.capacity - idx := by
+    rw [List.length_take]; omega
+  refine ⟨s', h, fun j hj hin => ?_, fun i hi => ?_, o1, o2, o3, hb, o4, o5⟩
+  · rw [Lemmas.SdCardSim2.getBlock_writeMem s.bus s'.bus idx _ hm, if_pos ⟨by omega, by rw [hl]; omega⟩,
+      Nat.add_sub_cancel_left]
+    simp [List.getD_eq_getElem?_getD, hj, show j < s.bus.capacity - idx by omega]
+  · rw [Lemmas.SdCardSim2.getBlock_writeMem s.bus s'.bus idx _ hm, if_neg (by rw [hl]; omega)]
+
+/-- … and the card is usable afterwards: a following single-block read of any block of the card
+succeeds and returns what the card stores there — for a block written before the refused one,
+the written data.  (Before the repair this read's command frame was a protocol violation.) -/
+theorem write_refused_then_read (s : St Card) (hS : Settled s.bus)
+    (hbl : s.bus.busyLeft ≤ DEFAULT_COMMAND_RETRIES) (hncr : s.bus.ncr ≤ DEFAULT_COMMAND_RETRIES)
+    (hnac : s.bus.nac ≤ DEFAULT_READ_RETRIES) (hbusy : s.bus.busy ≤ DEFAULT_WRITE_RETRIES) (hgap : s.bus.stopGap ≤ 1) (hcrc : CrcAgree s)
+    (blocks : List Bytes) (idx : Nat) (hn : blocks.length ≠ 1)
+    (hover : s.bus.capacity < idx + blocks.length) (hlen : ∀ b ∈ blocks, b.length = 512)
+    (j : Nat) (hj : j < blocks.length) (hin : idx + j < s.bus.capacity)
+    (hadr : Addressable s.cardType s.bus.kind (idx + j)) :
+    ∃ s' s'', Sd.write cardBus blocks idx s = (.err .WriteError, s') ∧
+      Sd.read cardBus 1 (idx + j) s' = (.ok [blocks[j]], s'') ∧ s''.bus.violations = s.bus.violations := by
+  have hadr0 : Addressable s.cardType s.bus.kind idx := by
+    rcases hadr with ⟨h1, h2, h3⟩ | ⟨h1, h2, h3⟩
+    · exact Or.inl ⟨h1, h2, by omega⟩
+    · exact Or.inr ⟨h1, h2, by omega⟩
+  obtain ⟨s', hw, hget, _, ⟨k1, k2, _, k4, k5, _, _⟩, hv, hS', hb', hct', _⟩ :=
+    write_multi_refused_block s hS hbl hncr hbusy hgap hcrc blocks idx hn hadr0 (by omega) hover hlen
+  have hg := hget j hj hin
+  obtain ⟨s'', hr, _, _, hv', _⟩ := read_single_correct s' hS' (by rw [hb']; exact Nat.zero_le _)
+    (by rw [k4]; exact hncr) (by rw [k5]; exact hnac) (idx + j) (by rw [hct', k1]; exact hadr)
+    (by rw [k2]; exact hin) (by rw [hg]; exact hlen _ (List.getElem_mem hj))
   rw [hg] at hr
   exact ⟨s', s'', hw, hr, hv'.trans hv⟩
 
@@ -426,20 +503,21 @@ theorem acquire_correct (s : St Card) (hq : Quiescent s.bus)
       Settled s'.bus ∧ s'.bus.busyLeft = 0 ∧ s'.bus.crcOn = s.useCrc ∧
       s'.bus.kind = s.bus.kind ∧ s'.bus.capacity = s.bus.capacity ∧ s'.bus.csd = s.bus.csd ∧
       s'.bus.ncr = s.bus.ncr ∧ s'.bus.nac = s.bus.nac ∧ s'.bus.busy = s.bus.busy ∧
-      s'.bus.mem = s.bus.mem ∧ s'.bus.violations = s.bus.violations ∧ s'.useCrc = s.useCrc := by
+      s'.bus.mem = s.bus.mem ∧ s'.bus.violations = s.bus.violations ∧ s'.useCrc = s.useCrc ∧
+      s'.bus.stopGap = s.bus.stopGap := by
   obtain ⟨h1, h2, h3, h4, h5⟩ := hq
   obtain ⟨s', N, h, hb, hc, hu, _⟩ := Lemmas.SdCardSim2.acquire_card s ⟨h1, h2, h3, h4⟩ h5 hncr hpolls
-  refine ⟨s', h, ?_, ?_, ?_, ?_, ?_, ?_, ?_, ?_, ?_, ?_, ?_, ?_, hu⟩ <;> try (rw [hb]; rfl)
+  refine ⟨s', h, ?_, ?_, ?_, ?_, ?_, ?_, ?_, ?_, ?_, ?_, ?_, ?_, hu, ?_⟩ <;> try (rw [hb]; rfl)
   · rw [hc]; cases s.bus.kind <;> rfl
   · rw [hb]; exact ⟨rfl, rfl, rfl, rfl, rfl, rfl⟩
 
 /-- … in particular for a freshly powered card `Spec.Card.mk kind …`. -/
-theorem acquire_identifies_kind (kind : Kind) (csd : List UInt8) (ncr nac busy initPolls : Nat)
+theorem acquire_identifies_kind (kind : Kind) (csd : List UInt8) (ncr nac busy initPolls gap : Nat)
     (hncr : ncr ≤ DEFAULT_COMMAND_RETRIES) (hpolls : initPolls ≤ DEFAULT_COMMAND_RETRIES)
-    (s : St Card) (hbus : s.bus = Spec.Card.mk kind csd ncr nac busy initPolls) :
+    (s : St Card) (hbus : s.bus = Spec.Card.mk kind csd ncr nac busy initPolls gap) :
     ∃ s', acquire cardBus s = (.ok (), s') ∧ s'.cardType = some (typeOfKind kind) ∧
       Settled s'.bus ∧ s'.bus.busyLeft = 0 ∧ s'.bus.crcOn = s.useCrc ∧ s'.bus.violations = [] := by
-  obtain ⟨s', h, hc, hS, hb, hcrc, hk, _, _, _, _, _, _, hv, _⟩ :=
+  obtain ⟨s', h, hc, hS, hb, hcrc, hk, _, _, _, _, _, _, hv, _, _⟩ :=
     acquire_correct s (by rw [hbus]; exact ⟨rfl, rfl, rfl, rfl, rfl⟩) (by rw [hbus]; exact hncr)
       (by rw [hbus]; exact hpolls)
   rw [hbus] at hc hv
@@ -448,16 +526,16 @@ theorem acquire_identifies_kind (kind : Kind) (csd : List UInt8) (ncr nac busy i
 /-- From power-up to data, through the public calls: on a freshly powered card of any kind, with
 CRCs on or off, `write(&[blk], idx)` (which first runs `acquire`) followed by `read(&mut [b], idx)`
 returns `blk`, and the card has recorded no violation at all. -/
-theorem fresh_card_write_then_read (kind : Kind) (csd : List UInt8) (ncr nac busy initPolls : Nat)
+theorem fresh_card_write_then_read (kind : Kind) (csd : List UInt8) (ncr nac busy initPolls gap : Nat)
     (hncr : ncr ≤ DEFAULT_COMMAND_RETRIES) (hnac : nac ≤ DEFAULT_READ_RETRIES)
     (hbusy : busy ≤ DEFAULT_WRITE_RETRIES) (hpolls : initPolls ≤ DEFAULT_COMMAND_RETRIES)
-    (s : St Card) (hbus : s.bus = Spec.Card.mk kind csd ncr nac busy initPolls) (hct : s.cardType = none)
+    (s : St Card) (hbus : s.bus = Spec.Card.mk kind csd ncr nac busy initPolls gap) (hct : s.cardType = none)
     (idx : Nat) (hidx : idx < capacityOfCsd csd)
     (hadr : (kind = .SDHC ∧ idx < 4294967296) ∨ (kind ≠ .SDHC ∧ idx < 8388608))
     (blk : Bytes) (hlen : blk.length = 512) :
     ∃ s₁ s₂, call cardBus (.write [blk] idx) s = (.ok .unit, s₁) ∧
       call cardBus (.read 1 idx) s₁ = (.ok (.blocks [blk]), s₂) ∧ s₂.bus.violations = [] := by
-  obtain ⟨s0, h0, hc0, hS0, hb0, hcrc0, hk0, hcap0, _, hncr0, hnac0, hbusy0, _, hv0, hu0⟩ :=
+  obtain ⟨s0, h0, hc0, hS0, hb0, hcrc0, hk0, hcap0, _, hncr0, hnac0, hbusy0, _, hv0, hu0, _⟩ :=
     acquire_correct s (by rw [hbus]; exact ⟨rfl, rfl, rfl, rfl, rfl⟩) (by rw [hbus]; exact hncr)
       (by rw [hbus]; exact hpolls)
   rw [hbus] at hc0 hk0 hcap0 hncr0 hnac0 hbusy0 hv0
@@ -550,19 +628,42 @@ example : ∃ s', Sd.read cardBus 3 4093 demoSdhc = (.ok [zeros512, zeros512, ze
 example : ∃ s', Sd.write cardBus [demoBlock 1, demoBlock 2, demoBlock 3] 10 demoSdhc = (.ok (), s') ∧
     getBlock s'.bus 11 = demoBlock 2 ∧ getBlock s'.bus 13 = getBlock demoSdhc.bus 13 := by
   obtain ⟨s', h, h1, h2, _⟩ := write_multi_correct_sdhc demoSdhc rfl rfl ⟨rfl, rfl, rfl, rfl, rfl, rfl⟩
-    (by decide) (by decide) (by decide) (fun _ => rfl) [demoBlock 1, demoBlock 2, demoBlock 3] 10 (by decide)
+    (by decide) (by decide) (by decide) (by decide) (fun _ => rfl) [demoBlock 1, demoBlock 2, demoBlock 3] 10 (by decide)
     (by decide) (by decide) (by intro b hb; simp at hb; rcases hb with rfl | rfl | rfl <;> exact List.length_replicate ..)
   exact ⟨s', h, h1 1 (by decide), h2 13 (Or.inr (by decide))⟩
 
 /-- The card of the defect report: busy for 12000 polls after programming, more than the command
-budget.  A read after a 2-block write succeeds. -/
+budget.  A read after a 2-block write succeeds — whether the card signals busy at once … -/
 example : ∃ s' s'', Sd.write cardBus [demoBlock 1, demoBlock 2] 10 { demoSdhc with bus.busy := 12000 } = (.ok (), s') ∧
     Sd.read cardBus 1 11 s' = (.ok [demoBlock 2], s'') := by
   obtain ⟨s', s'', h1, h2, _⟩ := write_multi_then_read { demoSdhc with bus.busy := 12000 } ⟨rfl, rfl, rfl, rfl, rfl, rfl⟩
-    (by decide) (by decide) (by decide) (by decide) (fun _ => rfl) [demoBlock 1, demoBlock 2] 10 (by decide)
+    (by decide) (by decide) (by decide) (by decide) (by decide) (fun _ => rfl) [demoBlock 1, demoBlock 2] 10 (by decide)
     (by decide) (by intro b hb; simp at hb; rcases hb with rfl | rfl <;> exact List.length_replicate ..)
     1 (by decide) (Or.inl ⟨rfl, rfl, by decide⟩)
   exact ⟨s', s'', h1, h2⟩
+
+/-- … or one byte after the stop token (`stopGap = 1`, N_BR): the byte the driver clocks and
+discards after the stop token swallows the gap, so the busy wait sees the busy signal. -/
+example : ∃ s' s'', Sd.write cardBus [demoBlock 1, demoBlock 2] 10
+      { demoSdhc with bus.busy := 12000, bus.stopGap := 1 } = (.ok (), s') ∧
+    Sd.read cardBus 1 11 s' = (.ok [demoBlock 2], s'') ∧ s''.bus.violations = [] := by
+  obtain ⟨s', s'', h1, h2, h3⟩ := write_multi_then_read { demoSdhc with bus.busy := 12000, bus.stopGap := 1 }
+    ⟨rfl, rfl, rfl, rfl, rfl, rfl⟩
+    (by decide) (by decide) (by decide) (by decide) (by decide) (fun _ => rfl) [demoBlock 1, demoBlock 2] 10 (by decide)
+    (by decide) (by intro b hb; simp at hb; rcases hb with rfl | rfl <;> exact List.length_replicate ..)
+    1 (by decide) (Or.inl ⟨rfl, rfl, by decide⟩)
+  exact ⟨s', s'', h1, h2, h3⟩
+
+/-- Three blocks written at the last two blocks of the card: the third is refused, `WriteError`,
+the first two are stored and can be read back. -/
+example : ∃ s' s'', Sd.write cardBus [demoBlock 1, demoBlock 2, demoBlock 3] 4094 demoSdhc = (.err .WriteError, s') ∧
+    Sd.read cardBus 1 4095 s' = (.ok [demoBlock 2], s'') ∧ s''.bus.violations = [] := by
+  obtain ⟨s', s'', h1, h2, h3⟩ := write_refused_then_read demoSdhc ⟨rfl, rfl, rfl, rfl, rfl, rfl⟩
+    (by decide) (by decide) (by decide) (by decide) (by decide) (fun _ => rfl) [demoBlock 1, demoBlock 2, demoBlock 3] 4094
+    (by decide) (by decide)
+    (by intro b hb; simp at hb; rcases hb with rfl | rfl | rfl <;> exact List.length_replicate ..)
+    1 (by decide) (by decide) (Or.inl ⟨rfl, rfl, by decide⟩)
+  exact ⟨s', s'', h1, h2, h3⟩
 
 example : ∃ s', numBlocks cardBus demoSdhc = (.ok 4096, s') := by
   obtain ⟨s', h, _⟩ := num_blocks_correct demoSdhc ⟨rfl, rfl, rfl, rfl, rfl, rfl⟩ (by decide) (by decide) (by decide)
@@ -579,7 +680,7 @@ example (kind : Kind) : ∃ s₁ s₂,
     call cardBus (.write [demoBlock 7] 100) { bus := Spec.Card.mk kind (Spec.Card.csdV2 3) 8 100 20000 1000 } =
       (.ok .unit, s₁) ∧
     call cardBus (.read 1 100) s₁ = (.ok (.blocks [demoBlock 7]), s₂) ∧ s₂.bus.violations = [] :=
-  fresh_card_write_then_read kind (Spec.Card.csdV2 3) 8 100 20000 1000 (by decide) (by decide) (by decide) (by decide)
+  fresh_card_write_then_read kind (Spec.Card.csdV2 3) 8 100 20000 1000 0 (by decide) (by decide) (by decide) (by decide)
     _ rfl rfl 100 (by decide) (by cases kind <;> simp) (demoBlock 7) (List.length_replicate ..)
 
 end Sdmmc.Props.C12EndToEnd
